@@ -1,7 +1,7 @@
 """C11 — parser accepts exactly the varlink grammar, rejects duplicates, mirrors the source."""
 from vlib import peg
-from vlib.cfg import Cfg, DefUse, ref_chain
-from vlib.cond import switch_cond, variant_edge
+from vlib.cfg import Slice, Cfg, DefUse, ref_chain
+from vlib.cond import bool_edges, switch_cond, variant_edge
 from vlib.facts import AnchorMissing
 
 GRAMMAR = "varlink_parser/src/varlink_grammar.rs"
@@ -190,10 +190,34 @@ KINDS = {"Method": dict(own_keys="method_keys", own_map="methods", others={"erro
          "Error": dict(own_keys="error_keys", own_map="errors", others={"typedef_keys", "method_keys"})}
 
 
+_ITEMS = [None]
+
+def _struct_field_names(body, tyname):
+    from vlib import absval
+    f = absval._FACTS[0]
+    if f is None: return None
+    for u in f.units:
+        for it in u.items:
+            if it.get("kind") == "Struct" and it.get("path", "").split("::")[-1] == tyname and it.get("variants"):
+                return [x["name"] for x in it["variants"][0].get("fields", [])]
+    return None
+
+
 def recv_fields(body, du, op):
-    """field names on the receiver chain of a method call (through refs, copies and Deref-like calls)"""
+    """field names on the receiver chain of a method call (through refs, copies and Deref-like calls; through tuples, arrays and
+    iterators over them when the receiver was handed to a helper that way)"""
     out = []
     if op.place is None: return out
+    sl = Slice(body, du, extra_pass=("=deref", "=deref_mut", "=as_slice", "=as_ref", "=as_mut", "=borrow", "=borrow_mut", "=as_mut_slice", "=iter", "=iter_mut", "=into_iter", "=next", "=by_ref"))
+    sl.origins(op)
+    for (l, proj) in sl.last_seen:
+        if not proj or not proj[0].startswith("."): continue
+        ty = body.ty(l).replace("&mut ", "").replace("&", "").strip().split("<")[0].split("::")[-1]
+        names = _struct_field_names(body, ty)
+        if names:
+            try: k = int(proj[0][1:])
+            except ValueError: continue
+            if k < len(names): out.append(names[k])
     work = [op.place.l]; seen = set()
     while work:
         l0 = work.pop()
@@ -218,7 +242,9 @@ def r2(cx):
         c = switch_cond(body, du, b.term)
         if c.kind == "discr" and "MethodOrTypedefOrError" in body.ty(c.place.l): sw = b.term
     if sw is None: raise AnchorMissing("from_token: no match on MethodOrTypedefOrError")
-    nexts = {t.bb for t in body.calls("=next")}
+    # (the member loop's own next(); the `next` of an adaptor written out inside an arm does not end the arm)
+    sw_bb = [b.idx for b in body.blocks if b.term is sw][0]
+    nexts = {t.bb for t in body.calls("=next") if cfg.dominates(t.bb, sw_bb)} or {t.bb for t in body.calls("=next") if not t.callee.d.get("synthetic")}
     arms = {}
     for v, dst in sw.targets:
         r = cfg.reach(dst, blocked_nodes=nexts)
@@ -269,6 +295,13 @@ def r2(cx):
                         some = variant_edge(term, 1)
                         oks = any(e.bb in cfg.after(some, blocked_nodes=nexts) for e in errins) and cfg.must_pass(dst, list(nexts), {t.bb})
                         break
+                    if c.kind == "call" and c.term.callee.name in ("is_some", "is_none") and c.term.args and c.term.args[0].place is not None \
+                       and any(k == "call" and o is t for k, o in Slice(body, du).origins(c.term.args[0])):
+                        # `if map.insert(name, member).is_some() { report }`
+                        te, fe = bool_edges(term, c)
+                        some = te if c.term.callee.name == "is_some" else fe
+                        oks = any(e.bb in cfg.after(some, blocked_nodes=nexts) for e in errins) and cfg.must_pass(dst, list(nexts), {t.bb})
+                        break
         cells += 1
         cx.check(oks, "C11.R2", "from_token:%s:same-kind-duplicate" % kind, site, "a repeated %s name is not reported (map insert returning Some must record an error)" % kind.lower(), note_ok="insert()==Some -> error recorded")
         # each contains-true edge records an error
@@ -288,7 +321,6 @@ def r2(cx):
             if b.cleanup or b.term.kind != "switch": continue
             c = switch_cond(tf, tdu, b.term)
             if c.kind == "call" and c.term is emp[0]:
-                from vlib.cond import bool_edges
                 te, fe = bool_edges(b.term, c)
                 from .client_common import ok_return_blocks
                 okret = ok_return_blocks(tf)
